@@ -155,10 +155,11 @@ def as_mask(m, n):
     return [bool(v) for v in a]
 
 
-def valid_masks(x, lower_rel, upper_rel, kl, kh):
-    """Iterator over (expected mask, free flags) for every allowed choice of lowest/highest entries."""
+def valid_masks(x, lower_rel, upper_rel, kl, kh, band_=False):
+    """Iterator over (expected mask, free flags) for every allowed choice of lowest/highest entries.
+    band_: optionally the precomputed result of band(x, lower_rel, upper_rel)."""
     n = len(x)
-    b = band(x, lower_rel, upper_rel)
+    b = band(x, lower_rel, upper_rel) if band_ is False else band_
     if b is None:
         # constant vector: normalised value undefined -> everything is selected (DESIGN); also accept the reading
         # "band = everything, then drop the k lowest/highest" (all entries tie, any choice)
@@ -173,9 +174,9 @@ def valid_masks(x, lower_rel, upper_rel, kl, kh):
             yield exp, fr
 
 
-def mask_ok(x, mask, lower_rel, upper_rel, kl, kh):
+def mask_ok(x, mask, lower_rel, upper_rel, kl, kh, band_=False):
     """True if `mask` (list of bool) is band minus SOME valid choice of the kl lowest / kh highest entries."""
-    for exp, fr in valid_masks(x, lower_rel, upper_rel, kl, kh):
+    for exp, fr in valid_masks(x, lower_rel, upper_rel, kl, kh, band_):
         if all(fr[i] or exp[i] == mask[i] for i in range(len(mask))):
             return True
     return False
